@@ -324,7 +324,8 @@ def rule_diag(ctx: Ctx) -> List[Ob]:
     iv = lp.target.id if isinstance(lp.target, ast.Name) else None
     rng = lp.iter
     nname = src(rng.args[0]) if isinstance(rng, ast.Call) and dotted(rng.func) == "range" and len(rng.args) == 1 else None
-    ndef = [s for s in f.node.body if isinstance(s, ast.Assign) and nname is not None and src(s.targets[0]) == nname]
+    ndef = [s for s in f.node.body if isinstance(s, (ast.Assign, ast.AnnAssign)) and getattr(s, "value", None) is not None
+            and nname is not None and src(s.targets[0] if isinstance(s, ast.Assign) else s.target) == nname]
     okn = iv is not None and nname is not None and (nname == f"{hp}.shape[0]" or (len(ndef) == 1 and src(ndef[0].value) in (f"{hp}.shape[0]", f"{hp}.shape[1]")))
     obs.append(ob("DIAG", "index ranges over all rows of the operator", f, lp, okn, f"for {iv} in {short(rng)}; {nname} = {short(ndef[0].value) if ndef else '?'}",
                   construct=f"for {iv} in {short(rng)}"))
@@ -336,9 +337,14 @@ def rule_diag(ctx: Ctx) -> List[Ob]:
             vname = src(s.targets[0].value)
     fresh = vname is not None and any(isinstance(s, ast.Assign) and src(s.targets[0]) == vname and isinstance(s.value, ast.Call)
                                       and dotted(s.value.func) in ("np.zeros", "np.zeros_like") for s in lp.body)
+    zero_before = vname is not None and any(isinstance(s, (ast.Assign, ast.AnnAssign)) and getattr(s, "value", None) is not None
+                                            and src(s.targets[0] if isinstance(s, ast.Assign) else s.target) == vname
+                                            and isinstance(s.value, ast.Call) and dotted(s.value.func) in ("np.zeros", "np.zeros_like")
+                                            for s in f.node.body)
     reset = vname is not None and any(isinstance(s, ast.Assign) and isinstance(s.targets[0], ast.Subscript) and src(s.targets[0].value) == vname
                                       and isinstance(s.value, ast.Constant) and s.value.value in (0, 0.0) and src(s.targets[0].slice) == iv
                                       for s in lp.body)
+    reset = reset and zero_before
     obs.append(ob("DIAG", "probe is the i-th unit vector, re-created (or reset) in every iteration", f, lp, bool(vname) and (fresh or reset),
                   f"probe `{vname}`: fresh per iteration={fresh}, reset after use={reset}" +
                   ("" if vname and (fresh or reset) else ": ones accumulate in the probe, later entries are sums of columns"),
